@@ -185,3 +185,84 @@ Proof.
   unfold c03_undash, replace_char. rewrite map_map. apply map_ext. intros c.
   destruct (N.eqb c ch_dash) eqn:E; [reflexivity|]. now rewrite E.
 Qed.
+
+(* ---------- the definitions of an enum in the five languages that do not inline struct variants ---------- *)
+Lemma sig_kind d : xs_kind (c03_sig_of d) = d_kind d.
+Proof. reflexivity. Qed.
+
+Lemma not_enum_of_sigs l sg : map c03_sig_of l = sg ->
+  forallb (fun s => negb (c03_kind_eqb (xs_kind s) DEnum)) sg = true ->
+  forallb (fun x => negb (c03_kind_eqb (d_kind x) DEnum)) l = true.
+Proof.
+  intros <-. induction l as [|a l IH]; cbn [map forallb]; [reflexivity|]. rewrite sig_kind. intros H.
+  apply andb_true_iff in H as [Ha Hl]. now rewrite Ha, IH.
+Qed.
+
+Lemma x_structs_not_enum ks : forallb (fun s => negb (c03_kind_eqb (xs_kind s) DEnum)) (map c03_x_struct ks) = true.
+Proof. induction ks as [|k ks IH]; cbn [map forallb]; [reflexivity|]. now rewrite IH. Qed.
+Lemma enum_helper_not_enum L wires : forallb (fun s => negb (c03_kind_eqb (xs_kind s) DEnum)) (c03_enum_helper L wires) = true.
+Proof. destruct L; reflexivity. Qed.
+
+Theorem enum_item L e pre d : c03_inlines L = false ->
+  map c03_sig_of pre = map c03_x_struct (c03_anon_keys (evariants (enum_shared e))) ++
+                       (match e with EAlgebraic _ _ _ => c03_enum_helper L (c03_wires_of (evariants (enum_shared e))) | EUnit _ => [] end) ->
+  Forall2 (vrel L) (evariants (enum_shared e)) (d_variants d) -> d_kind d = DEnum ->
+  map c03_sig_of (pre ++ [d]) = c03_expected_sigs L (ItEnum e) /\ c03_payloads_ok L (ItEnum e) (pre ++ [d]) = true.
+Proof.
+  intros HL Hpre F Hk. destruct (sig_of_enum L d _ F Hk) as [E P]. split.
+  - rewrite map_app, Hpre. cbn [map c03_expected_sigs]. rewrite E, HL. now rewrite <- app_assoc.
+  - apply payloads_ok_enum; [|exact P]. apply (not_enum_of_sigs _ _ Hpre).
+    rewrite forallb_app, x_structs_not_enum. destruct e; [reflexivity|apply enum_helper_not_enum].
+Qed.
+
+(* ---------- Forall2 out of mapM / mmapM, knowing the element is in the list ---------- *)
+Lemma mapM_Forall2_In {A B} (f : A -> outcome B) (R : A -> B -> Prop) l :
+  forall r, (forall x y, In x l -> f x = Ok y -> R x y) -> mapM f l = Ok r -> Forall2 R l r.
+Proof.
+  induction l as [|x l IH]; intros r HR; cbn [mapM].
+  - intros [= <-]. constructor.
+  - destruct (f x) as [y| |] eqn:Ex; cbn [bind]; try discriminate.
+    destruct (mapM f l) as [ys| |] eqn:El; cbn [bind]; try discriminate.
+    intros [= <-]. constructor; [apply HR; [now left|exact Ex]|].
+    apply IH; [|reflexivity]. intros x' y' Hin. apply HR. now right.
+Qed.
+
+Lemma mmapM_Forall2_In {St A B} (f : A -> M St B) (R : A -> B -> Prop) l :
+  forall s ys s', (forall x s y s', In x l -> f x s = Ok (y, s') -> R x y) -> mmapM f l s = Ok (ys, s') -> Forall2 R l ys.
+Proof.
+  induction l as [|x l IH]; intros s ys s' HR H; cbn [mmapM] in H.
+  - unfold ret in H. injection H as <- _. constructor.
+  - unfold mbind in H. destruct (f x s) as [[y s1]| |] eqn:Ex; try discriminate.
+    destruct (mmapM f l s1) as [[ys' s2]| |] eqn:El; try discriminate.
+    unfold ret in H. injection H as <- _. constructor; [eapply HR; [now left|exact Ex]|].
+    eapply IH; [|exact El]. intros x' s0 y' s0' Hin. apply HR. now right.
+Qed.
+
+Lemma concat_map_map {A B} (f : A -> B) (ll : list (list A)) : map f (List.concat ll) = List.concat (map (map f) ll).
+Proof. induction ll as [|l ll IH]; cbn [List.concat map]; [reflexivity|]. now rewrite map_app, IH. Qed.
+Lemma flat_map_concat' {A B} (f : A -> list B) (ll : list (list A)) : flat_map f (List.concat ll) = List.concat (map (flat_map f) ll).
+Proof. induction ll as [|l ll IH]; cbn [List.concat map flat_map]; [reflexivity|]. now rewrite flat_map_app, IH. Qed.
+
+Lemma dom_items_perm pd items : dom_C03_file pd = true -> Permutation items (items_of pd) ->
+  forall it, In it items -> dom_C03_item it = true.
+Proof.
+  intros Hd P it Hin. unfold dom_C03_file in Hd. rewrite c03_all_items_eq in Hd.
+  apply (proj1 (forallb_forall _ _) Hd). eapply Permutation_in; [exact P|exact Hin].
+Qed.
+
+(* the file verdict from per-item definition lists *)
+Theorem file_good_decls L pd items (dss : list (list decl)) (pre post : list decl) :
+  Permutation items (items_of pd) ->
+  Forall2 (fun it ds => map c03_sig_of ds = c03_expected_sigs L it) items dss ->
+  forallb (fun d => c03_kind_eqb (d_kind d) DHelper) pre = true ->
+  forallb (fun d => c03_kind_eqb (d_kind d) DHelper) post = true ->
+  good_C03_sigs (map c03_sig_of (pre ++ List.concat dss ++ post)) (flat_map (c03_expected_sigs L) (c03_all_items pd)) = true.
+Proof.
+  intros P F Hpre Hpost. rewrite !map_app, concat_map_map, c03_all_items_eq.
+  assert (HH : forall l, forallb (fun d => c03_kind_eqb (d_kind d) DHelper) l = true ->
+                         forallb (fun x => negb (c03_non_helper x)) (map c03_sig_of l) = true).
+  { induction l as [|a l IH]; cbn [forallb map]; [reflexivity|]. intros H. apply andb_true_iff in H as [Ha Hl].
+    rewrite (IH Hl), andb_true_r. unfold c03_non_helper. rewrite sig_kind. destruct (d_kind a); try discriminate. reflexivity. }
+  apply (file_good L (items_of pd) items (map (map c03_sig_of) dss)); [exact P| |now apply HH|now apply HH].
+  clear -F. induction F as [|it ds items dss E _ IH]; cbn [map]; constructor; auto.
+Qed.
